@@ -21,8 +21,13 @@ that saw only the text of one property and their own scratch worktree of `/repo`
 (rounds 2 and 3 additionally got one-line descriptions of the earlier changes
 for that property, to force a different mechanism and clause), and a fourth
 round of twelve (`A01-r4` … `A12-r4`) in which each agent got the texts of all
-twenty properties and one *area of the source tree* to change. Nothing from
-`/verif` was ever shown. Each was **confirmed independently** before being kept
+twenty properties and one *area of the source tree* to change, and a fifth
+round of twelve (`K01-r5` … `K12-r5`) in which each agent got all twenty
+properties and one *mechanism category* (aliasing of inputs, aliasing of
+outputs, caching, boundary values, foreign method sets, multi-hop drift, partial
+knowledge, positional wire data, multi-cause specifics, text encoding,
+caller-skip arithmetic, errors as arguments). Nothing from `/verif` was ever
+shown. Each was **confirmed independently** before being kept
 (`tools/confirm_mutant.sh`): the patch applies to the clean tree, the library
 builds with and without the `verif` tag, the demonstration passes without the
 change and fails with it, and the pinned suite (the 244 `stable_pass` tests,
@@ -40,7 +45,7 @@ suite is thin.
 Outcome: **every one of the {n} changes is reported as a VIOLATION by the quick
 tier of the check of the property it was written against** (seed 1). About a
 quarter of them were *missed* by the version of the monitor that existed when
-they arrived (round 1: 3, round 2: 8, round 3: 7, round 4: 2) and led to the
+they arrived (round 1: 3, round 2: 8, round 3: 7, round 4: 2, round 5: 3) and led to the
 strengthenings listed below the table; none led to loosening a check.
 
 | seeded | property | change | needs, in order to manifest | caught by (signatures) |
@@ -88,15 +93,20 @@ of the API.
 * **C16** — 22 argument-value variants (`C16`); `GetOneLineSource` must give the
   same answer under another stack and under foreign Cause-only / Unwrap-only
   wrappers (`C16-r2`); the slice returned by `StackTrace()` is scribbled on before
-  re-observing (`C16-r3`).
+  re-observing (`C16-r3`); call sites that live, through `//line` directives, in
+  a source file whose path contains a colon (`K11-r5`).
 * **C17** — the versions' leaf types have a custom leaf encoder (registered in
   the documented order) whose wire message differs from `Error()` and whose
-  payload the decoder insists on (`C17-r3`).
+  payload the decoder insists on (`C17-r3`); between two registrations each
+  version uses the keys of the types registered so far, as `init()` code does
+  (`K03-r5`: a type-details cache with incomplete invalidation).
 * **C18** — the shared value stays *cold*: the "executed alone" reference is
   computed on a twin built from the same descriptor at the same call site, and
   again on the shared value afterwards (`C18`).
 * **C19** — a decoded stage: the accessor model must also hold on the error
-  decoded at a knowing process (`C19-r2`).
+  decoded at a knowing process (`C19-r2`); the slices returned by
+  `GetTelemetryKeys` / `GetAllHints` / `GetAllDetails` / `GetAllIssueLinks` are
+  scribbled on and the error observed again (`K02-r5`).
 
 The full cross matrix (every seeded change × every check, quick tier) is in
 `seeded/MATRIX.md`.
